@@ -46,21 +46,21 @@ Definition calls_eqb := list_eqb call_eqb.
 
 (** C03-F5 (pinned tree, before commit 16cf34b): the request is served differently by the
     tree with and without the repair of [findNode]'s dead-end returns *)
-Definition guard_F5 (fx2 fx6 fx7 : bool) (eng : engine) (es : list centry) (t : tree) (q : request) : bool :=
-  let a := serve fx2 false fx6 fx7 eng es t q in
-  let b := serve fx2 true fx6 fx7 eng es t q in
+Definition guard_F5 (fx1 fx2 fx6 fx7 : bool) (eng : engine) (es : list centry) (t : tree) (q : request) : bool :=
+  let a := serve fx1 fx2 false fx6 fx7 eng es t q in
+  let b := serve fx1 fx2 true fx6 fx7 eng es t q in
   negb (outcome_eqb (fst a) (fst b) && calls_eqb (snd a) (snd b)).
 
 (* ------------------------------------------------------------------ findings: witnesses on loaded rule sets *)
 
-Definition served (fx2 fx5 fx6 fx7 : bool) (ds : list ruledef) (q : request) : option (outcome * list call) :=
-  match load false ds with Loaded es t => Some (serve fx2 fx5 fx6 fx7 eng_none es t q) | _ => None end.
+Definition served (fx2 fx3 fx5 fx6 fx7 : bool) (ds : list ruledef) (q : request) : option (outcome * list call) :=
+  match load fx3 false ds with Loaded es t => Some (serve false fx2 fx5 fx6 fx7 eng_none es t q) | _ => None end.
 
 (** C03-F2: /f/*rest with path_params rest = "x/y"; GET /f/x/y: the matcher is asked
     with no keys and no values, answers no, the request finds no rule *)
 Lemma F2_pinned_refuted :
   exists ds q k s segs,
-    served false true true true ds q = Some (ONone, [k]) /\
+    served false true true true true ds q = Some (ONone, [k]) /\
     nth_error (flat_routes 0 ds) (k_vid k) = Some s /\ guard_F2_params s = true /\
     sr_segs s q = Some segs /\
     ~ call_sees_route (flat_routes 0 ds) q k /\
@@ -78,7 +78,7 @@ Qed.
     with the captures {b: 1, c: 2/3} *)
 Lemma F3_pinned_refuted :
   exists ds q k s segs caps sc,
-    served true true true true ds q = Some (ORule 0 caps false, [k]) /\
+    served true false true true true ds q = Some (ORule 0 caps false, [k]) /\
     nth_error (flat_routes 0 ds) (k_vid k) = Some s /\ sr_rule s = 0 /\
     guard_F3 (flat_routes 0 ds) s = true /\
     sr_segs s q = Some segs /\
@@ -96,8 +96,8 @@ Qed.
     captures {a: b}; with a path_params condition on x the lookup panics *)
 Lemma F5_pinned_refuted :
   exists ds q k s segs caps sc es t,
-    load false ds = Loaded es t /\ guard_F5 true true true eng_none es t q = true /\
-    served true false true true ds q = Some (ORule 1 caps false, [k]) /\
+    load true false ds = Loaded es t /\ guard_F5 false true true true eng_none es t q = true /\
+    served true true false true true ds q = Some (ORule 1 caps false, [k]) /\
     nth_error (flat_routes 0 ds) (k_vid k) = Some s /\
     sr_segs s q = Some segs /\
     ~ call_sees_route (flat_routes 0 ds) q k /\
@@ -115,12 +115,325 @@ Qed.
 
 Lemma F5_pinned_panic_refuted :
   exists ds q k es t,
-    load false ds = Loaded es t /\ guard_F5 true true true eng_none es t q = true /\
-    served true false true true ds q = Some (OPanic, [k]) /\ k_res k = MPanic.
+    load true false ds = Loaded es t /\ guard_F5 false true true true eng_none es t q = true /\
+    served true true false true true ds q = Some (OPanic, [k]) /\ k_res k = MPanic.
 Proof.
   exists [w_rule [] [] [w_route "/:a/b/c" []] SOff;
           w_rule [] [] [w_route "/:a/:x" [{| pp_name := "x"; pp_tm := w_exact "b" |}]] SOff].
   exists (w_req "GET" "h" "/1/b"). do 3 eexists.
   split; [vm_compute; reflexivity|]. split; [vm_compute; reflexivity|].
   split; vm_compute; reflexivity.
+Qed.
+
+(* ================================================================== the lookup: what the matcher is asked with *)
+
+(** induction on trees (children through the static list, the wildcard and the catch-all option) *)
+Fixpoint tree_ind' (P : tree -> Prop)
+  (H : forall p st w c vs ks bt,
+       Forall (fun ct => P (snd ct)) st ->
+       (forall x, w = Some x -> P x) -> (forall x, c = Some x -> P x) ->
+       P (Node p st w c vs ks bt)) (t : tree) {struct t} : P t :=
+  match t with
+  | Node p st w c vs ks bt =>
+    H p st w c vs ks bt
+      ((fix go (l : list (ascii * tree)) : Forall (fun ct => P (snd ct)) l :=
+          match l with
+          | [] => Forall_nil _
+          | ct :: r => Forall_cons ct (tree_ind' P H (snd ct)) (go r)
+          end) st)
+      (fun x E => match w as w0 return w0 = Some x -> P x with
+                  | Some y => fun E0 => match E0 in _ = o return match o with Some z => P z | None => True end with
+                                        | eq_refl => tree_ind' P H y end
+                  | None => fun E0 => match E0 with end
+                  end E)
+      (fun x E => match c as c0 return c0 = Some x -> P x with
+                  | Some y => fun E0 => match E0 in _ = o return match o with Some z => P z | None => True end with
+                                        | eq_refl => tree_ind' P H y end
+                  | None => fun E0 => match E0 with end
+                  end E)
+  end.
+
+(** the edges from a node down to one of its descendants: static children (with the bytes of
+    the child's path), the single-wildcard child, the free-wildcard (catch-all) child *)
+Inductive piece := PS (s : string) | PW | PC.
+
+Inductive at_pos : tree -> list piece -> tree -> Prop :=
+| ap_here t : at_pos t [] t
+| ap_static t c child pi n :
+    In (c, child) (t_statics t) -> at_pos child pi n -> at_pos t (PS (t_path child) :: pi) n
+| ap_wild t w pi n : t_wild t = Some w -> at_pos w pi n -> at_pos t (PW :: pi) n
+| ap_catch t c : t_catch t = Some c -> at_pos t [PC] c.
+
+(** the values a path gives to the wildcards of a position: a static edge consumes its
+    bytes, a single wildcard a non-empty run of bytes up to the next '/', a free wildcard the
+    non-empty rest *)
+Fixpoint pos_match (pi : list piece) (path : string) : option (list string) :=
+  match pi with
+  | [] => if String.eqb path "" then Some [] else None
+  | PS s :: r => if prefix s path then pos_match r (sdrop (slen s) path) else None
+  | PW :: r =>
+    let k := next_sep path in
+    if Nat.eqb k 0 then None else option_map (cons (stake k path)) (pos_match r (sdrop k path))
+  | PC :: _ => if String.eqb path "" then None else Some [path]
+  end.
+
+(** a matcher call made for a value stored at a node below [n], reached along a position
+    that the looked-up path matches: the keys are that node's keys, the values the captures
+    on entry followed by the matched values *)
+Definition call_at (n : tree) (path : string) (caps : list string) (k : call) : Prop :=
+  exists pi node vals,
+    at_pos n pi node /\ In (k_vid k) (t_values node) /\ pos_match pi path = Some vals /\
+    k_keys k = t_keys node /\ k_vals k = (caps ++ vals)%list.
+
+Definition found_at (n : tree) (path : string) (caps : list string)
+           (keys : list string) (v : nat) (params : list string) : Prop :=
+  exists pi node vals,
+    at_pos n pi node /\ In v (t_values node) /\ pos_match pi path = Some vals /\
+    keys = t_keys node /\ params = (caps ++ vals)%list.
+
+Definition good (n : tree) (path : string) (caps : list string) (r : fres * list call) : Prop :=
+  (forall k, In k (snd r) -> call_at n path caps k) /\
+  match fst r with
+  | FRes (Some (keys, v)) params _ => found_at n path caps keys v params
+  | FRes None caps' true => caps' = caps
+  | _ => True
+  end.
+
+Lemma try_values_calls m keys caps vs k :
+  In k (snd (try_values m keys caps vs)) ->
+  In (k_vid k) vs /\ k_keys k = keys /\ k_vals k = caps.
+Proof.
+  induction vs as [|v r IH]; simpl; [tauto|].
+  destruct (m v keys caps) eqn:E.
+  - simpl. intros [<-|[]]. simpl. auto.
+  - destruct (try_values m keys caps r) as [x cs]. simpl in *. intros [<-|H].
+    + simpl. auto.
+    + destruct (IH H) as (A & B & C). auto.
+  - simpl. intros [<-|[]]. simpl. auto.
+Qed.
+
+Lemma try_values_found m keys caps vs v :
+  fst (try_values m keys caps vs) = Some (Some v) -> In v vs.
+Proof.
+  induction vs as [|x r IH]; simpl; [discriminate|].
+  destruct (m x keys caps).
+  - simpl. intro H. inversion H. auto.
+  - destruct (try_values m keys caps r) as [y cs]. simpl in *. auto.
+  - discriminate.
+Qed.
+
+Lemma pick_static_eq {A} first (k : tree -> A) d l :
+  pick_static first k d l = match find_static first l with Some c => k c | None => d end.
+Proof.
+  induction l as [|[c t] r IH]; simpl; [reflexivity|].
+  rewrite (Ascii.eqb_sym c first). destruct (Ascii.eqb first c); [reflexivity | exact IH].
+Qed.
+
+Lemma find_static_In c l t : find_static c l = Some t -> In (c, t) l.
+Proof.
+  induction l as [|[d u] r IH]; simpl; [discriminate|].
+  destruct (Ascii.eqb c d) eqn:E.
+  - apply Ascii.eqb_eq in E. subst d. intro H. inversion H. auto.
+  - auto.
+Qed.
+
+Lemma call_at_static n c child path caps k :
+  In (c, child) (t_statics n) -> prefix (t_path child) path = true ->
+  call_at child (sdrop (slen (t_path child)) path) caps k -> call_at n path caps k.
+Proof.
+  intros Hin Hp (pi & node & vals & Ha & Hv & Hm & Hk & Hvs).
+  exists (PS (t_path child) :: pi), node, vals. repeat split; try assumption.
+  - econstructor; eassumption.
+  - simpl. rewrite Hp. exact Hm.
+Qed.
+
+Lemma found_at_static n c child path caps keys v params :
+  In (c, child) (t_statics n) -> prefix (t_path child) path = true ->
+  found_at child (sdrop (slen (t_path child)) path) caps keys v params -> found_at n path caps keys v params.
+Proof.
+  intros Hin Hp (pi & node & vals & Ha & Hv & Hm & Hk & Hvs).
+  exists (PS (t_path child) :: pi), node, vals. repeat split; try assumption.
+  - econstructor; eassumption.
+  - simpl. rewrite Hp. exact Hm.
+Qed.
+
+Lemma call_at_wild n w path caps k :
+  t_wild n = Some w -> Nat.eqb (next_sep path) 0 = false ->
+  call_at w (sdrop (next_sep path) path) (caps ++ [stake (next_sep path) path])%list k ->
+  call_at n path caps k.
+Proof.
+  intros Hw Hk0 (pi & node & vals & Ha & Hv & Hm & Hk & Hvs).
+  exists (PW :: pi), node, (stake (next_sep path) path :: vals). repeat split; try assumption.
+  - econstructor; eassumption.
+  - simpl. rewrite Hk0, Hm. reflexivity.
+  - rewrite Hvs, <- app_assoc. reflexivity.
+Qed.
+
+Lemma found_at_wild n w path caps keys v params :
+  t_wild n = Some w -> Nat.eqb (next_sep path) 0 = false ->
+  found_at w (sdrop (next_sep path) path) (caps ++ [stake (next_sep path) path])%list keys v params ->
+  found_at n path caps keys v params.
+Proof.
+  intros Hw Hk0 (pi & node & vals & Ha & Hv & Hm & Hk & Hvs).
+  exists (PW :: pi), node, (stake (next_sep path) path :: vals). repeat split; try assumption.
+  - econstructor; eassumption.
+  - simpl. rewrite Hk0, Hm. reflexivity.
+  - rewrite Hvs, <- app_assoc. reflexivity.
+Qed.
+
+Lemma good_here m n caps : good n "" caps (here_part true m n caps).
+Proof.
+  unfold good, here_part. destruct (is_nil (t_values n)); [simpl; tauto|].
+  destruct (try_values m (t_keys n) caps (t_values n)) as [x cs] eqn:E.
+  assert (Hc : forall k, In k cs -> call_at n "" caps k).
+  { intros k Hk. replace cs with (snd (try_values m (t_keys n) caps (t_values n))) in Hk by (rewrite E; reflexivity).
+    destruct (try_values_calls _ _ _ _ _ Hk) as (A & B & C).
+    exists [], n, []. repeat split; try assumption; [constructor | rewrite app_nil_r; assumption]. }
+  destruct x as [[v|]|]; simpl; split; try assumption; try tauto.
+  - exists [], n, []. repeat split; [constructor | | rewrite app_nil_r; reflexivity].
+    apply (try_values_found m (t_keys n) caps). rewrite E. reflexivity.
+  - destruct (t_bt n); reflexivity || exact I.
+Qed.
+
+Lemma good_catch m n c path caps first rest :
+  path = String first rest -> t_catch n = Some c ->
+  let r := catch_part true m n c path caps in
+  (forall k, In k (snd r) -> call_at n path caps k) /\
+  match fst r with
+  | FRes (Some (keys, v)) params _ => found_at n path caps keys v params
+  | FRes None caps' _ => caps' = caps
+  | _ => True
+  end.
+Proof.
+  intros Hp Hc. unfold catch_part. cbv zeta.
+  destruct (try_values m (t_keys c) (caps ++ [path]) (t_values c)) as [x cs] eqn:E.
+  assert (Hm : pos_match [PC] path = Some [path]) by (subst path; reflexivity).
+  assert (Hcalls : forall k, In k cs -> call_at n path caps k).
+  { intros k Hk. replace cs with (snd (try_values m (t_keys c) (caps ++ [path]) (t_values c))) in Hk by (rewrite E; reflexivity).
+    destruct (try_values_calls _ _ _ _ _ Hk) as (A & B & C).
+    exists [PC], c, [path]. repeat split; try assumption. constructor. assumption. }
+  destruct x as [[v|]|]; simpl; split; try assumption; try tauto.
+  exists [PC], c, [path]. repeat split; try assumption; [constructor; assumption|].
+  apply (try_values_found m (t_keys c) (caps ++ [path])%list). rewrite E. reflexivity.
+Qed.
+
+Definition static_part (fx2 fx5 : bool) m (n : tree) (first : ascii) (rest : string) (caps : list string) :=
+  match find_static first (t_statics n) with
+  | Some child =>
+    if prefix (t_path child) (String first rest)
+    then find_node fx2 fx5 m child (sdrop (slen (t_path child)) (String first rest)) caps
+    else (FRes None caps true, [])
+  | None => (FRes None caps true, [])
+  end.
+
+Definition wild_part (fx2 fx5 : bool) m (n : tree) (path : string) (caps1 : list string) :=
+  match t_wild n with
+  | None => (None, [])
+  | Some w =>
+    if Nat.eqb (next_sep path) 0 then (None, []) else
+    wild_res (find_node fx2 fx5 m w (sdrop (next_sep path) path) (caps1 ++ [stake (next_sep path) path]))
+  end.
+
+Lemma find_node_cons fx2 fx5 m n first rest caps :
+  find_node fx2 fx5 m n (String first rest) caps =
+  match static_part fx2 fx5 m n first rest caps with
+  | (FPanic, cs) => (FPanic, cs)
+  | (FRes (Some x) caps1 b, cs) => (FRes (Some x) caps1 b, cs)
+  | (FRes None caps1 false, cs) => (FRes None caps1 false, cs)
+  | (FRes None caps1 true, cs1) =>
+    match wild_part fx2 fx5 m n (String first rest) caps1 with
+    | (Some r, cs2) => (r, cs1 ++ cs2)
+    | (None, cs2) =>
+      match t_catch n with
+      | None => (FRes None caps1 true, cs1 ++ cs2)
+      | Some c => let '(r, cs3) := catch_part fx2 m n c (String first rest) caps1 in (r, cs1 ++ cs2 ++ cs3)
+      end
+    end
+  end.
+Proof.
+  destruct n as [p st w c vs ks bt]. unfold static_part, wild_part.
+  rewrite <- (pick_static_eq first
+    (fun child => if prefix (t_path child) (String first rest)
+                  then find_node fx2 fx5 m child (sdrop (slen (t_path child)) (String first rest)) caps
+                  else (FRes None caps true, [])) (FRes None caps true, [])).
+  reflexivity.
+Qed.
+
+Definition IHP m (t : tree) : Prop :=
+  forall path caps, good t path caps (find_node true true m t path caps).
+
+Lemma good_static m n first rest caps :
+  Forall (fun ct => IHP m (snd ct)) (t_statics n) ->
+  good n (String first rest) caps (static_part true true m n first rest caps).
+Proof.
+  intro IH. unfold static_part.
+  destruct (find_static first (t_statics n)) as [child|] eqn:Ef; [|split; [intros k []| reflexivity]].
+  apply find_static_In in Ef.
+  destruct (prefix (t_path child) (String first rest)) eqn:Ep; [|split; [intros k []| reflexivity]].
+  rewrite Forall_forall in IH. specialize (IH _ Ef (sdrop (slen (t_path child)) (String first rest)) caps).
+  simpl snd in IH. destruct IH as [IH1 IH2]. split.
+  - intros k Hk. eapply call_at_static; eauto.
+  - destruct (fst (find_node true true m child _ caps)) as [|[[keys v]|] params b]; try exact I.
+    + eapply found_at_static; eauto.
+    + exact IH2.
+Qed.
+
+Lemma good_wild m n path caps :
+  (forall w, t_wild n = Some w -> IHP m w) ->
+  let r := wild_part true true m n path caps in
+  (forall k, In k (snd r) -> call_at n path caps k) /\
+  match fst r with
+  | Some (FRes (Some (keys, v)) params _) => found_at n path caps keys v params
+  | Some (FRes None _ true) => False          (* the answer of the wildcard child ends the search or is dropped *)
+  | _ => True
+  end.
+Proof.
+  intro IH. unfold wild_part. cbv zeta.
+  destruct (t_wild n) as [w|] eqn:Ew; [|split; [intros k []| exact I]].
+  destruct (Nat.eqb (next_sep path) 0) eqn:Ek; [split; [intros k []| exact I]|].
+  specialize (IH w eq_refl (sdrop (next_sep path) path) (caps ++ [stake (next_sep path) path])%list).
+  destruct IH as [IH1 IH2].
+  destruct (find_node true true m w (sdrop (next_sep path) path) (caps ++ [stake (next_sep path) path]))
+    as [[|[[keys v]|] params b] cs]; simpl in *.
+  - split; [|exact I]. intros k Hk. eapply call_at_wild; eauto.
+  - split; [intros k Hk; eapply call_at_wild; eauto|]. eapply found_at_wild; eauto.
+  - destruct b; simpl; (split; [intros k Hk; eapply call_at_wild; eauto | exact I]).
+Qed.
+
+(** every matcher call of a lookup (repaired tree) is made with the keys of the node the
+    value is stored at and with the values the looked-up path gives to the wildcards on the
+    way to that node; the same for the entry returned; a failed search returns the captures
+    it was given *)
+Lemma find_node_good m n : IHP m n.
+Proof.
+  induction n as [p st w c vs ks bt IHs IHw IHc] using tree_ind'.
+  set (n := Node p st w c vs ks bt) in *.
+  intros path caps. destruct path as [|first rest].
+  - change (find_node true true m n "" caps) with (here_part true m n caps). apply good_here.
+  - rewrite find_node_cons.
+    assert (Gs := good_static m n first rest caps IHs).
+    destruct (static_part true true m n first rest caps) as [[|[[keys v]|] caps1 b] cs1].
+    + destruct Gs as [G1 _]. split; [exact G1 | exact I].
+    + exact Gs.
+    + destruct Gs as [G1 G2]. simpl in G1, G2. destruct b.
+      * (* backtrack into the wildcard child, with the captures given *)
+        subst caps1.
+        assert (Gw := good_wild m n (String first rest) caps IHw). cbv zeta in Gw.
+        destruct (wild_part true true m n (String first rest) caps) as [[r|] cs2].
+        -- destruct Gw as [W1 W2]. simpl in W1, W2. split.
+           ++ simpl. intros k Hk. apply in_app_or in Hk as [Hk|Hk]; auto.
+           ++ simpl. destruct r as [|[[keys v]|] params b]; try exact I; [exact W2|].
+              (* wild_res never yields "not found, backtrack" *)
+              destruct b; [destruct W2 | exact I].
+        -- destruct Gw as [W1 _]. simpl in W1.
+           destruct (t_catch n) as [cc|] eqn:Ec.
+           ++ assert (Gc := good_catch m n cc (String first rest) caps first rest eq_refl Ec). cbv zeta in Gc.
+              destruct (catch_part true m n cc (String first rest) caps) as [r cs3].
+              destruct Gc as [C1 C2]. simpl in C1, C2. split.
+              ** simpl. intros k Hk. apply in_app_or in Hk as [Hk|Hk]; [auto|].
+                 apply in_app_or in Hk as [Hk|Hk]; auto.
+              ** simpl. destruct r as [|[[keys v]|] params b]; try exact I; [exact C2|].
+                 destruct b; [exact C2 | exact I].
+           ++ split; [|reflexivity]. simpl. intros k Hk. apply in_app_or in Hk as [Hk|Hk]; auto.
+      * split; [exact G1 | exact I].
 Qed.
